@@ -22,7 +22,9 @@ def run(ctx):
     RR.rating_confinement(ctx, "R06.g", parts=("width",))    # the compared rating is the full-width rating (the pre-selection compares it as usize)
     from . import C20 as _RC20
     _RC20.api_effects(ctx, "R06.h", which=("limit",))
-    return info("R06.h: set_limit really stores the limit on every call (the registry API is not exercised by the repository's tests). R06.a: the bounded selection truncates to its limit field only directly after a sort, finishes with sort -> "
+    from . import r_rank as _RR3
+    _RR3.hit_from_record(ctx, "R06.i")
+    return info("R06.i: a hit copies id, title and rating of its record unchanged (no narrowing of the rating on the way). R06.h: set_limit really stores the limit on every call (the registry API is not exercised by the repository's tests). R06.a: the bounded selection truncates to its limit field only directly after a sort, finishes with sort -> "
                 "truncate(limit) -> reverse before the first pop under the done flag, forwards (x, y) to the user comparator in "
                 "order; the limit is self.limit at every selection site; the search pipeline is ixs -> hit -> score -> "
                 "hit_matches -> selection(compare_hits) -> {id, highlight}; R06.b: candidate cap size×c with c >= 10 over "
